@@ -230,7 +230,10 @@ theorem pixels_in_bbox (pl : Polyline) (w : Nat) (hw : 2 ≤ w) (hg : PolyBBoxGu
     unfold pixels at hps
     obtain ⟨w', rfl⟩ : ∃ w', w = w' + 2 := ⟨w - 2, by omega⟩
     simp only at hps
-    rw [hu] at hps
+    cases hfuel : polyPixelFuel pl (w' + 2) with
+    | none => rw [hfuel] at hps; cases hps
+    | some fuel0 =>
+    rw [hfuel] at hps
     simp only [Option.bind_eq_bind, Option.bind_some] at hps
     cases hit : PolyThickPixels.new pl (w' + 2) with
     | none => rw [hit] at hps; cases hps
